@@ -42,7 +42,7 @@ structure Sem (Val Err Op : Type) where
   isNone : Val → Bool                      -- `value is None`
   hasAttr : Val → Op → Bool                -- `name in dir(value)` for a method call
   attrErr : Err                            -- AttributeError
-  iterLen : Val → Option Nat               -- `len(value)` of an iterable value (`x in expr` falls back to rx.__iter__)
+  iterLen : Val → Option Nat               -- `len(value)` of an iterable value (kept for the harness semantics; unused by the model)
   typeErr : Err                            -- TypeError
   ofBool : Bool → Val                      -- a plain Python bool
 
@@ -584,18 +584,11 @@ def step (S : Sem Val Err Op) (fuel : Nat) (w : World Val Err Op) : Stmt Val Op 
       | (.error .fuel, w1) => (.fuel, w1)
       | (.error .bad, w1) => (.bad, w1)
   | .isin n _ _ =>
-    -- src: class rx has no `__contains__` (the method is spelled `__contains_`): Python falls back to
-    -- rx.__iter__ (reads `self._current`; TypeError for a non-iterable value; yields one rx per item) and
-    -- tests `item == x`, an rx whose `__bool__` is True: the answer is `len(value) > 0`, whatever x is.
-    -- (The nodes `__iter__` / `__eq__` create are unreachable; their only effect on the state is the read.)
-    match run S fuel (.resolve n) w with
-    | (.ok val, w1) =>
-      match S.iterLen val with
-      | none => (.readErr S.typeErr, w1)
-      | some k => (.read (S.ofBool (k != 0)), w1)
-    | (.error (.py e), w1) => (.readErr e, w1)
-    | (.error .fuel, w1) => (.fuel, w1)
-    | (.error .bad, w1) => (.bad, w1)
+    -- src: rx.__contains__ — Python coerces the result of `__contains__` to bool, so `x in expr` can never be
+    -- an expression: the method refuses with TypeError (like `len(expr)`), before anything is read
+    match w.nodes[n]? with
+    | none => (.bad, w)
+    | some _ => (.readErr S.typeErr, w)
   | .readref h =>
     match w.holders[h]? with
     | some v => (.read v, w)
